@@ -1042,3 +1042,57 @@ def replay_simple(rec):
     except Exception as e:
         got = ["EXC " + type(e).__name__]
     return [{"label": alg + ".partition_differs_from_model", "m": rec["best"], "c": got, "key": {"vals": vals, "k": k}}]
+
+
+from prtpy.partitioning import sequential_number_partitioning_sy as _snp_mod, recursive_number_partitioning_sy as _rnp_mod
+
+
+def replay_snp(rec):
+    """rec: emitted by SNP.tla (vals in arrival order, k, sums (ascending), calls = number of two-way base cases)"""
+    vals, k = rec["vals"], rec["k"]
+    ids = list(range(1, len(vals) + 1))
+    key = {"vals": vals, "k": k}
+    count = [0]
+    orig = _snp_mod.ckk_optimal
+
+    def counting(*a, **kw):
+        count[0] += 1
+        return orig(*a, **kw)
+
+    _snp_mod.ckk_optimal = counting
+    try:
+        B = prtpy.BinnerKeepingContents(lambda i: vals[i - 1])
+        ret = _snp_mod.snp(B, k, ids)
+        got, ok = norm_sums(sorted(ret[0]))
+    except Exception as e:
+        got = ["EXC " + type(e).__name__]
+    finally:
+        _snp_mod.ckk_optimal = orig
+    return [{"label": "snp.sums_differ_from_model", "m": rec["sums"], "c": got, "key": key},
+            {"label": "snp.number_of_two_way_base_cases_differs_from_model", "m": rec["calls"], "c": count[0], "key": key}]
+
+
+def replay_rnp(rec):
+    """rec: emitted by RNP.tla (vals in arrival order, k, diff, calls = number of two-way base cases)"""
+    vals, k = rec["vals"], rec["k"]
+    ids = list(range(1, len(vals) + 1))
+    key = {"vals": vals, "k": k}
+    count = [0]
+    orig = _rnp_mod.ckk_optimal
+
+    def counting(*a, **kw):
+        count[0] += 1
+        return orig(*a, **kw)
+
+    _rnp_mod.ckk_optimal = counting
+    try:
+        B = prtpy.BinnerKeepingContents(lambda i: vals[i - 1])
+        ret = _rnp_mod.rnp(B, k, ids)
+        ss, ok = norm_sums(ret[0])
+        got = max(ss) - min(ss) if ok else "inexact"
+    except Exception as e:
+        got = "EXC " + type(e).__name__
+    finally:
+        _rnp_mod.ckk_optimal = orig
+    return [{"label": "rnp.difference_differs_from_model", "m": rec["diff"], "c": got, "key": key},
+            {"label": "rnp.number_of_two_way_base_cases_differs_from_model", "m": rec["calls"], "c": count[0], "key": key}]
